@@ -178,7 +178,7 @@ pub fn trigger(prop: &str, out: &RunOutput) -> bool {
         "C11" => c.audits >= 10 && (c.bind_switches > 0 || probe(out, "RemovedFromHeapUnnecessary") > 0),
         "C12" => c.rounds >= 2,
         "C13" => out.injected_panic.is_some(),
-        "C20" => c.rounds >= 2,
+        "C20" => c.memo_hits > 0 && c.memo_recreated > 0,
         _ => true,
     }
 }
